@@ -1,79 +1,108 @@
-(* Proofs about Exit.v: invariants by induction over all interleavings (any channel capacity),
-   constructive exit paths, and the backlog-leak witness. *)
+(* Proofs about Exit.v: invariants by induction over all interleavings (any channel capacity)
+   and constructive exit paths. *)
 From Coq Require Import List Bool Arith Lia.
 From KV.Pool Require Import Exit.
 Import ListNotations.
 
 Ltac inv_step H := inversion H; subst; clear H; simpl in *.
 
+Ltac split_cases :=
+  repeat match goal with
+         | |- context [b2n ?r] => is_var r; destruct r
+         | H : context [b2n ?r] |- _ => is_var r; destruct r
+         | |- context [drop_wh ?w] => is_var w; destruct w
+         | H : context [drop_wh ?w] |- _ => is_var w; destruct w
+         | |- context [drop_die ?w _] => is_var w; destruct w
+         | H : context [drop_die ?w _] |- _ => is_var w; destruct w
+         end; simpl in *.
+
 (* ------------------------------------------------------------------ invariants *)
 Definition Good (s : gst) : Prop :=
   (pp s = PPBlk -> q s > 0) /\
   (pend s + b2n (run s) <= 1) /\
-  (wh s = WNone <-> pp s = PPNone).
+  (wh s = WNone <-> pp s = PPNone) /\
+  (pp s = PPNone -> pend s = 0 /\ run s = false) /\
+  (wh s = WDropped -> die s = true) /\
+  (* once Listener.Close has drained the backlog, a session can be in it only while the monitor
+     stands right behind `l.chAccepts <- s`, about to test l.die again *)
+  ((lc s = LCDrained \/ lc s = LCDone) -> wh s = WBacklog -> mon s = MPushed) /\
+  (lc s <> LCNone -> ldie s = true) /\
+  (mon s = MChecked -> wh s = WNone) /\
+  (lc s = LCDone -> own s = true -> sock s = true).
 
 Lemma good_client o : Good (init_client o).
-Proof. repeat split; simpl; try lia; try discriminate. Qed.
+Proof. unfold Good; simpl; intuition (try discriminate; try lia). Qed.
 Lemma good_served o : Good (init_served o).
-Proof. repeat split; simpl; try lia; try discriminate; auto. Qed.
+Proof. unfold Good; simpl; intuition (try discriminate; try lia). Qed.
 
 Lemma good_step cap s l t : Good s -> step cap s l t -> Good t.
 Proof.
-  intros [G1 [G2 G3]] H. inv_step H; unfold Good; simpl;
-    repeat split; intros; try discriminate; try lia; try tauto;
-    try (destruct r; simpl in *; lia);
-    try (apply G3; assumption); try (apply G3 in H; assumption);
-    try (exfalso; apply G3 in H; congruence).
+  intros G H. unfold Good in G. inv_step H; unfold Good; simpl; split_cases;
+    intuition (try discriminate; try lia; try congruence;
+               try (subst; simpl; solve [reflexivity | apply orb_true_r])).
 Qed.
 
 Lemma good_reach cap s0 s : Good s0 -> reach cap s0 s -> Good s.
 Proof. intros G R. induction R; [auto | eapply good_step; eauto]. Qed.
 
+Lemma reach_star cap sel s0 s t : reach cap s0 s -> star cap sel s t -> reach cap s0 t.
+Proof. intros R St. induction St; [auto | apply IHSt; eapply reach_step; eauto]. Qed.
+
+Lemma star_weaken cap (f g : lab -> bool) s t :
+  (forall l, f l = true -> g l = true) -> star cap f s t -> star cap g s t.
+Proof. intros W St. induction St; [apply star_refl | eapply star_step; eauto]. Qed.
+
+Lemma star_trans cap sel s t u : star cap sel s t -> star cap sel t u -> star cap sel s u.
+Proof. intros A B. induction A; [auto | eapply star_step; eauto]. Qed.
+
 (* monotone facts *)
 Lemma own_const cap s l t : step cap s l t -> own t = own s.
 Proof. intro H; inv_step H; reflexivity. Qed.
 
-Lemma client_no_monitor cap o s : reach cap (init_client o) s -> mon s = MNone /\ own s = o.
+Lemma client_inv cap o s :
+  reach cap (init_client o) s -> mon s = MNone /\ own s = o /\ rl s <> RLNone /\ pp s <> PPNone.
 Proof.
-  induction 1 as [|s l t R [IH1 IH2] St]; [simpl; auto|].
-  inv_step St; try discriminate; auto.
+  induction 1 as [|s l t R [IH1 [IH2 [IH3 IH4]]] St]; [simpl; repeat split; auto; discriminate|].
+  inv_step St; try discriminate; repeat split; auto; try discriminate; try congruence.
 Qed.
 
-(* an owned socket is closed by Close: client session / listener *)
-Lemma client_close_inv cap s :
-  reach cap (init_client true) s -> mon s = MNone /\ own s = true /\ (die s = true -> sock s = true).
-Proof.
-  induction 1 as [|s l t R [IH1 [IH2 IH3]] St]; [simpl; repeat split; auto; discriminate|].
-  inv_step St; try discriminate; repeat split; auto; intros; try discriminate;
-    try (apply IH3; auto; fail); try (subst; apply orb_true_r); try (rewrite IH3; auto).
-Qed.
-
-Lemma client_close_closes_socket cap s :
-  reach cap (init_client true) s -> die s = true -> sock s = true.
-Proof. intros R. apply (client_close_inv _ _ R). Qed.
-
-Lemma listener_close_inv cap s :
-  reach cap (init_served true) s -> own s = true /\ (ldie s = true -> sock s = true).
+Lemma served_inv cap o s : reach cap (init_served o) s -> mon s <> MNone /\ own s = o.
 Proof.
   induction 1 as [|s l t R [IH1 IH2] St]; [simpl; split; auto; discriminate|].
-  inv_step St; split; auto; intros; try discriminate; try (apply IH2; auto; fail);
-    try (subst; apply orb_true_r); try (rewrite IH2; auto).
+  inv_step St; split; auto; try discriminate; try congruence.
 Qed.
 
-Lemma listener_close_closes_socket cap s :
-  reach cap (init_served true) s -> ldie s = true -> sock s = true.
-Proof. intros R. apply (listener_close_inv _ _ R). Qed.
+(* an owned socket is closed by Close: client session *)
+Lemma client_close_inv0 cap s :
+  reach cap (init_client true) s ->
+  mon s = MNone /\ own s = true /\ lc s = LCNone /\ (die s = true -> sock s = true).
+Proof.
+  induction 1 as [|s l t R [IH1 [IH2 [IH3 IH4]]] St]; [simpl; repeat split; auto; discriminate|].
+  inv_step St; try discriminate; try congruence; repeat split; auto; intros; try discriminate;
+    try (apply IH4; auto; fail); try (subst; apply orb_true_r); try (rewrite IH4; auto).
+Qed.
+
+Lemma client_close_inv cap s :
+  reach cap (init_client true) s -> die s = true -> sock s = true.
+Proof. intros R. apply (client_close_inv0 _ _ R). Qed.
 
 (* ------------------------------------------------------------------ postProcess *)
-Lemma pp_sel_exits cap : forall n so ld pe r rl m w o,
-  exists t, star cap is_pp (mkS true so ld n PPSel pe r rl m w o) t /\ pp t = PPDone /\ q t = 0.
+Lemma pp_sel_exits cap : forall n so ld pe r rl m w o c,
+  star cap is_pp (mkS true so ld n PPSel pe r rl m w o c) (mkS true so ld 0 PPDone pe r rl m w o c).
 Proof.
   induction n as [|n IH]; intros.
-  - eexists. split.
-    { eapply star_step; [apply s_pp_die_exit | reflexivity | apply star_refl]. }
-    split; reflexivity.
-  - destruct (IH so ld pe r rl m w o) as [t [St Ht]]. exists t. split; [| exact Ht].
-    eapply star_step; [apply s_pp_consume | reflexivity | exact St].
+  - eapply star_step; [apply s_pp_die_exit | reflexivity | apply star_refl].
+  - eapply star_step; [apply s_pp_consume | reflexivity | apply IH].
+Qed.
+
+Lemma pp_exits_rec cap so ld n p pe r rl m w o c :
+  (p = PPBlk -> n > 0) -> (p = PPSel \/ p = PPBlk) ->
+  star cap is_pp (mkS true so ld n p pe r rl m w o c) (mkS true so ld 0 PPDone pe r rl m w o c).
+Proof.
+  intros G1 [-> | ->].
+  - apply pp_sel_exits.
+  - specialize (G1 eq_refl). destruct n as [|n]; [lia|].
+    eapply star_step; [apply s_pp_consume_blk | reflexivity | apply pp_sel_exits].
 Qed.
 
 Lemma postprocess_exits cap s0 s :
@@ -81,12 +110,9 @@ Lemma postprocess_exits cap s0 s :
   exists t, star cap is_pp s t /\ pp t = PPDone /\ q t = 0.
 Proof.
   intros G0 R Hd Hp. pose proof (good_reach _ _ _ G0 R) as [G1 _].
-  destruct s as [d so ld qq p pe r rl m w o]. simpl in *. subst d.
-  destruct Hp as [-> | ->].
-  - apply pp_sel_exits.
-  - specialize (G1 eq_refl). destruct qq as [|n]; [lia|].
-    destruct (pp_sel_exits cap n so ld pe r rl m w o) as [t [St Ht]]. exists t. split; [| exact Ht].
-    eapply star_step; [apply s_pp_consume_blk | reflexivity | exact St].
+  destruct s as [d so ld qq p pe r rl m w o c]. simpl in *. subst d.
+  exists (mkS true so ld 0 PPDone pe r rl m w o c).
+  split; [apply pp_exits_rec; auto | split; reflexivity].
 Qed.
 
 (* once it has returned it stays returned, and nothing restarts it *)
@@ -94,22 +120,27 @@ Lemma postprocess_done_stable cap s l t : step cap s l t -> pp s = PPDone -> pp 
 Proof. intro H; inv_step H; intros; auto; discriminate. Qed.
 
 (* ------------------------------------------------------------------ update *)
+Lemma upd_drains_rec cap so ld qq p pe r rl m w o c :
+  pe + b2n r <= 1 ->
+  star cap is_upd (mkS true so ld qq p pe r rl m w o c) (mkS true so ld qq p 0 false rl m w o c).
+Proof.
+  intro G2. destruct r; simpl in G2.
+  - assert (pe = 0) by lia. subst.
+    eapply star_step; [apply s_u_resubmit | reflexivity |].
+    eapply star_step; [apply s_u_fire_dead | reflexivity | apply star_refl].
+  - destruct pe as [|pe]; [apply star_refl|].
+    assert (pe = 0) by lia. subst.
+    eapply star_step; [apply s_u_fire_dead | reflexivity | apply star_refl].
+Qed.
+
 Lemma update_drains cap s0 s :
   Good s0 -> reach cap s0 s -> die s = true ->
   exists t, star cap is_upd s t /\ pend t = 0 /\ run t = false /\ die t = true /\ pp t = pp s.
 Proof.
   intros G0 R Hd. pose proof (good_reach _ _ _ G0 R) as [_ [G2 _]].
-  destruct s as [d so ld qq p pe r rl m w o]. simpl in *. subst d.
-  destruct r; simpl in G2.
-  - assert (pe = 0) by lia. subst. eexists. split.
-    { eapply star_step; [apply s_u_resubmit | reflexivity |].
-      eapply star_step; [apply s_u_fire_dead | reflexivity | apply star_refl]. }
-    repeat split; reflexivity.
-  - destruct pe as [|pe].
-    + eexists. split; [apply star_refl | repeat split; reflexivity].
-    + assert (pe = 0) by lia. subst. eexists. split.
-      { eapply star_step; [apply s_u_fire_dead | reflexivity | apply star_refl]. }
-      repeat split; reflexivity.
+  destruct s as [d so ld qq p pe r rl m w o c]. simpl in *. subst d.
+  exists (mkS true so ld qq p 0 false rl m w o c).
+  split; [apply upd_drains_rec; auto | repeat split; reflexivity].
 Qed.
 
 (* with die closed a firing callback is a no-op: it does not flush and does not re-submit *)
@@ -122,14 +153,34 @@ Proof. intro H; inv_step H; intros; try discriminate; auto. Qed.
 Lemma update_stopped_stable cap s l t :
   step cap s l t -> die s = true -> pp s <> PPNone -> pend s = 0 -> run s = false ->
   die t = true /\ pp t <> PPNone /\ pend t = 0 /\ run t = false.
-Proof. intro H; inv_step H; intros; repeat split; auto; try discriminate; try congruence. Qed.
+Proof.
+  intro H; inv_step H; intros; split_cases; repeat split; auto; try discriminate; try congruence.
+Qed.
+
+(* postProcess and the update chain of a closed session both finish, by library steps alone *)
+Lemma finish_session cap s :
+  Good s -> die s = true -> pp s <> PPNone ->
+  exists u, star cap is_lib s u /\ pp u = PPDone /\ pend u = 0 /\ run u = false /\
+            mon u = mon s /\ rl u = rl s /\ die u = true /\ sock u = sock s.
+Proof.
+  intros [G1 [G2 _]] Hd Hp.
+  destruct s as [d so ld qq p pe r rl m w o c]. simpl in *. subst d.
+  exists (mkS true so ld (match p with PPDone => qq | _ => 0 end) PPDone 0 false rl m w o c).
+  split; [| repeat split; reflexivity].
+  eapply star_trans with (t := mkS true so ld (match p with PPDone => qq | _ => 0 end) PPDone pe r rl m w o c).
+  - destruct p; try congruence.
+    + eapply star_weaken; [| apply pp_exits_rec; auto]. intros l; destruct l; simpl; auto; discriminate.
+    + eapply star_weaken; [| apply pp_exits_rec; auto]. intros l; destruct l; simpl; auto; discriminate.
+    + apply star_refl.
+  - eapply star_weaken; [| apply upd_drains_rec; auto]. intros l; destruct l; simpl; auto; discriminate.
+Qed.
 
 (* ------------------------------------------------------------------ readLoop / monitor *)
 Lemma readloop_exits cap s :
   die s = true -> sock s = true -> (rl s = RLRead \/ rl s = RLGot \/ rl s = RLIn) ->
   exists t, star cap is_rl s t /\ rl t = RLDone.
 Proof.
-  destruct s as [d so ld qq p pe r rl m w o]. simpl. intros -> -> [-> | [-> | ->]].
+  destruct s as [d so ld qq p pe r rl m w o c]. simpl. intros -> -> [-> | [-> | ->]].
   - eexists. split; [eapply star_step; [apply s_rl_err | reflexivity | apply star_refl] | reflexivity].
   - eexists. split; [eapply star_step; [apply s_rl_closed | reflexivity | apply star_refl] | reflexivity].
   - eexists. split.
@@ -142,7 +193,7 @@ Qed.
 Lemma readloop_exits_on_packet cap s :
   die s = true -> rl s = RLGot -> exists t, step cap s RL_closed t /\ rl t = RLDone.
 Proof.
-  destruct s as [d so ld qq p pe r rl m w o]. simpl. intros -> ->.
+  destruct s as [d so ld qq p pe r rl m w o c]. simpl. intros -> ->.
   eexists. split; [apply s_rl_closed | reflexivity].
 Qed.
 
@@ -152,68 +203,89 @@ Lemma readloop_blocked_without_transport cap s l t :
   rl s = RLRead -> sock s = false -> step cap s l t -> is_rl l = false.
 Proof. intros Hr Hs H; inv_step H; auto; discriminate. Qed.
 
+(* With the transport closed the monitor returns; if Listener.Close has returned as well, the
+   session - accepted or not - is closed when it does (or was never created). *)
+Lemma monitor_finishes cap s :
+  Good s -> sock s = true -> mon s <> MNone ->
+  exists t, star cap is_mon s t /\ mon t = MDone /\ sock t = true /\ rl t = rl s /\
+    (lc s = LCDone -> (wh s = WHeld -> die s = true) -> pp t = PPNone \/ die t = true).
+Proof.
+  intros [G1 [G2 [G3 [G4 [G5 [G6 [G7 [G8 G9]]]]]]]] Hs Hm.
+  destruct s as [d so ld qq p pe r rl m w o c]. simpl in *. subst so.
+  assert (FIN : forall d' w', (c = LCDone -> (w' = WHeld -> d' = true) ->
+                               (w' = WNone <-> p = PPNone) -> (w' = WDropped -> d' = true) -> w' <> WBacklog ->
+                               p = PPNone \/ d' = true)).
+  { intros d' w' _ Hh H3 H5 Hb. destruct w'; [left; apply H3; auto | congruence | right; auto | right; auto]. }
+  destruct m; try congruence.
+  - (* MRead *)
+    eexists. split; [eapply star_step; [apply s_m_err | reflexivity | apply star_refl]|].
+    simpl. repeat split; auto.
+    all: intros Hc Hh; apply (FIN d w); auto; intro Hb; specialize (G6 (or_intror Hc) Hb); discriminate.
+  - (* MGot *)
+    destruct w.
+    + assert (p = PPNone) by (apply G3; auto). subst p. destruct ld.
+      * eexists. split.
+        { eapply star_step; [apply s_m_check_dead | reflexivity |].
+          eapply star_step; [apply s_m_err | reflexivity | apply star_refl]. }
+        simpl. repeat split; auto.
+        all: intros _ _; left; apply G3; auto.
+      * eexists. split.
+        { eapply star_step; [apply s_m_check_alive | reflexivity |].
+          eapply star_step; [apply s_m_create | reflexivity |].
+          eapply star_step; [apply s_m_post_alive | reflexivity |].
+          eapply star_step; [apply s_m_err | reflexivity | apply star_refl]. }
+        simpl. repeat split; auto.
+        all: intros Hc _; exfalso; assert (false = true) by (apply G7; rewrite Hc; discriminate); discriminate.
+    + eexists. split.
+      { eapply star_step; [apply s_m_dispatch_old; discriminate | reflexivity |].
+        eapply star_step; [apply s_m_err | reflexivity | apply star_refl]. }
+      simpl. repeat split; auto.
+      all: intros Hc _; specialize (G6 (or_intror Hc) eq_refl); discriminate.
+    + eexists. split.
+      { eapply star_step; [apply s_m_dispatch_old; discriminate | reflexivity |].
+        eapply star_step; [apply s_m_err | reflexivity | apply star_refl]. }
+      simpl. repeat split; auto.
+    + eexists. split.
+      { eapply star_step; [apply s_m_dispatch_old; discriminate | reflexivity |].
+        eapply star_step; [apply s_m_err | reflexivity | apply star_refl]. }
+      simpl. repeat split; auto.
+  - (* MChecked: the die test was passed before Close; the session is created, queued, and - if
+       l.die is closed by now - closed again by the monitor's own closeBacklog *)
+    rewrite (G8 eq_refl) in *. assert (p = PPNone) by (apply G3; auto). subst p. destruct ld.
+    + eexists. split.
+      { eapply star_step; [apply s_m_create | reflexivity |].
+        eapply star_step; [apply s_m_post_dead | reflexivity |].
+        eapply star_step; [apply s_m_err | reflexivity | apply star_refl]. }
+      simpl. repeat split; auto.
+    + eexists. split.
+      { eapply star_step; [apply s_m_create | reflexivity |].
+        eapply star_step; [apply s_m_post_alive | reflexivity |].
+        eapply star_step; [apply s_m_err | reflexivity | apply star_refl]. }
+      simpl. repeat split; auto.
+      all: intros Hc _; exfalso; assert (false = true) by (apply G7; rewrite Hc; discriminate); discriminate.
+  - (* MPushed *)
+    destruct ld.
+    + eexists. split.
+      { eapply star_step; [apply s_m_post_dead | reflexivity |].
+        eapply star_step; [apply s_m_err | reflexivity | apply star_refl]. }
+      simpl. repeat split; auto.
+      all: intros Hc Hh; destruct w; simpl; [left; apply G3; auto | right; auto | right; auto | right; auto].
+    + eexists. split.
+      { eapply star_step; [apply s_m_post_alive | reflexivity |].
+        eapply star_step; [apply s_m_err | reflexivity | apply star_refl]. }
+      simpl. repeat split; auto.
+      all: intros Hc _; exfalso; assert (false = true) by (apply G7; rewrite Hc; discriminate); discriminate.
+  - (* MDone *)
+    eexists. split; [apply star_refl|]. simpl. repeat split; auto.
+    all: intros Hc Hh; apply (FIN d w); auto; intro Hb; specialize (G6 (or_intror Hc) Hb); discriminate.
+Qed.
+
 Lemma monitor_exits cap s0 s :
-  Good s0 -> reach cap s0 s -> sock s = true -> (mon s = MRead \/ mon s = MGot) ->
+  Good s0 -> reach cap s0 s -> sock s = true -> mon s <> MNone ->
   exists t, star cap is_mon s t /\ mon t = MDone.
 Proof.
-  intros G0 R Hs Hm. pose proof (good_reach _ _ _ G0 R) as [_ [_ G3]].
-  destruct s as [d so ld qq p pe r rl m w o]. simpl in *. subst so.
-  destruct Hm as [-> | ->].
-  - eexists. split; [eapply star_step; [apply s_m_err | reflexivity | apply star_refl] | reflexivity].
-  - destruct w.
-    + assert (p = PPNone) by (apply G3; auto). subst p.
-      eexists. split.
-      { eapply star_step; [apply s_m_dispatch_new | reflexivity |].
-        eapply star_step; [apply s_m_err | reflexivity | apply star_refl]. }
-      reflexivity.
-    + eexists. split.
-      { eapply star_step; [apply s_m_dispatch_old; discriminate | reflexivity |].
-        eapply star_step; [apply s_m_err | reflexivity | apply star_refl]. }
-      reflexivity.
-    + eexists. split.
-      { eapply star_step; [apply s_m_dispatch_old; discriminate | reflexivity |].
-        eapply star_step; [apply s_m_err | reflexivity | apply star_refl]. }
-      reflexivity.
-Qed.
-
-(* ------------------------------------------------------------------ F14: the backlog leak *)
-(* connect, do not accept, close the listener (which owns and closes the socket); the monitor exits *)
-Definition leak_state : gst := mkS false true true 0 PPSel 1 false RLNone MDone WBacklog true.
-
-Lemma leak_reachable cap : reach cap (init_served true) leak_state.
-Proof.
-  eapply reach_step; [eapply reach_step; [eapply reach_step; [eapply reach_step; [apply reach_init|] |] |] |].
-  - apply s_packet_mon.
-  - apply s_m_dispatch_new.
-  - apply s_close_listener. discriminate.
-  - simpl. apply s_m_err.
-Qed.
-
-Definition Leaked (s : gst) : Prop :=
-  die s = false /\ pp s = PPSel /\ wh s = WBacklog /\ mon s = MDone /\ pend s + b2n (run s) = 1.
-
-Lemma leaked_step cap s l t : Leaked s -> step cap s l t -> not_accept l = true -> Leaked t.
-Proof.
-  intros [L1 [L2 [L3 [L4 L5]]]] H NA. inv_step H; unfold Leaked; simpl;
-    try discriminate; repeat split; auto; try lia; try (destruct r; simpl in *; lia).
-Qed.
-
-Lemma leaked_forever cap s t : Leaked s -> star cap not_accept s t -> Leaked t.
-Proof. intros L St. induction St; [auto | apply IHSt; eapply leaked_step; eauto]. Qed.
-
-(* second half: with a socket the listener does not own, the monitor keeps creating sessions
-   after Listener.Close *)
-Definition closed_listening : gst := mkS false false true 0 PPNone 0 false RLNone MGot WNone false.
-
-Lemma dispatch_after_close cap :
-  reach cap (init_served false) closed_listening /\ ldie closed_listening = true /\
-  exists t, step cap closed_listening M_dispatch_new t /\ wh t = WBacklog /\ pp t = PPSel /\ pend t = 1.
-Proof.
-  split; [| split; [reflexivity|]].
-  - eapply reach_step; [eapply reach_step; [apply reach_init|] |].
-    + apply s_close_listener. discriminate.
-    + simpl. apply s_packet_mon.
-  - eexists. split; [apply s_m_dispatch_new | repeat split].
+  intros G0 R Hs Hm. destruct (monitor_finishes cap s (good_reach _ _ _ G0 R) Hs Hm) as [t [St [Ht _]]].
+  exists t; auto.
 Qed.
 
 (* ------------------------------------------------------------------ the statements of C15.v *)
@@ -222,10 +294,6 @@ Definition is_start (s0 : gst) : Prop :=
 
 Lemma good_start s0 : is_start s0 -> Good s0.
 Proof. intros [-> | [-> | [-> | ->]]]; (apply good_client || apply good_served). Qed.
-
-Lemma star_weaken cap (f g : lab -> bool) s t :
-  (forall l, f l = true -> g l = true) -> star cap f s t -> star cap g s t.
-Proof. intros W St. induction St; [apply star_refl | eapply star_step; eauto]. Qed.
 
 Lemma thm_postprocess_exits :
   forall cap s0 s, is_start s0 ->
@@ -258,57 +326,102 @@ Lemma thm_readloop_exits :
      exists t, star cap is_rl s t /\ rl t = RLDone) /\
   (forall s, die s = true -> rl s = RLGot -> exists t, step cap s RL_closed t /\ rl t = RLDone) /\
   (forall s, reach cap (init_client true) s -> die s = true -> sock s = true) /\
-  (forall s, reach cap (init_served true) s -> ldie s = true -> sock s = true) /\
-  (forall o s, reach cap (init_served o) s -> sock s = true -> (mon s = MRead \/ mon s = MGot) ->
+  (forall s, reach cap (init_served true) s -> lc s = LCDone -> sock s = true) /\
+  (forall o s, reach cap (init_served o) s -> sock s = true ->
      exists t, star cap is_mon s t /\ mon t = MDone).
 Proof.
   intro cap. split; [| split; [| split; [| split]]].
   - apply readloop_exits.
   - apply readloop_exits_on_packet.
-  - apply client_close_closes_socket.
-  - apply listener_close_closes_socket.
-  - intros o s R. eapply monitor_exits; [apply good_served | exact R].
+  - apply client_close_inv.
+  - intros s R Hc. pose proof (good_reach _ _ _ (good_served true) R) as G.
+    destruct (served_inv _ _ _ R) as [_ Ho]. apply G; auto.
+  - intros o s R Hs. eapply monitor_exits; [apply good_served | exact R | exact Hs |].
+    apply (served_inv _ _ _ R).
 Qed.
 
-Definition all_exit_full : Prop :=
-  forall cap o s, reach cap (init_served o) s -> ldie s = true -> sock s = true ->
-    (wh s = WHeld -> die s = true) ->
-    exists t, star cap (fun l => negb (is_env l)) s t /\
+(* Everything the library started for a served session ends once the listener is closed
+   (Close has returned), the transport is closed where the listener does not own it, and
+   every session the application holds is closed - whether the session was accepted, was
+   still in the backlog, or was being created while Close ran. *)
+Lemma thm_all_exit :
+  forall cap o s, reach cap (init_served o) s ->
+    lc s = LCDone -> (own s = false -> sock s = true) -> (wh s = WHeld -> die s = true) ->
+    exists t, star cap is_lib s t /\
               (pp t = PPDone \/ pp t = PPNone) /\ pend t = 0 /\ run t = false /\ mon t = MDone.
-
-Lemma thm_backlog_leak_refuted :
-  (exists s, (forall cap, reach cap (init_served true) s) /\
-     ldie s = true /\ sock s = true /\ mon s = MDone /\ wh s = WBacklog /\
-     forall cap t, star cap not_accept s t ->
-       die t = false /\ pp t = PPSel /\ wh t = WBacklog /\ pend t + b2n (run t) = 1) /\
-  (exists s, (forall cap, reach cap (init_served false) s) /\ ldie s = true /\
-     forall cap, exists t, step cap s M_dispatch_new t /\ wh t = WBacklog /\ pp t = PPSel /\ pend t = 1) /\
-  ~ all_exit_full.
 Proof.
-  assert (L0 : Leaked leak_state) by (repeat split; reflexivity).
-  split; [| split].
-  - exists leak_state. split; [intro; apply leak_reachable|].
-    split; [reflexivity|]. split; [reflexivity|]. split; [reflexivity|]. split; [reflexivity|].
-    intros cap t St. destruct (leaked_forever cap _ _ L0 St) as [L1 [L2 [L3 [_ L5]]]]. auto.
-  - exists closed_listening. split; [intro; apply (proj1 (dispatch_after_close cap))|].
-    split; [reflexivity|]. intro cap. apply (proj2 (proj2 (dispatch_after_close cap))).
-  - intro F. destruct (F 1 true leak_state (leak_reachable 1) eq_refl eq_refl) as [t [St [Hp _]]].
-    { simpl. discriminate. }
-    assert (St' : star 1 not_accept leak_state t).
-    { eapply star_weaken; [| exact St]. intros l; destruct l; simpl; auto. }
-    destruct (leaked_forever 1 _ _ L0 St') as [_ [L2 _]]. rewrite L2 in Hp. destruct Hp; discriminate.
+  intros cap o s R Hc Hso Hh.
+  pose proof (good_reach _ _ _ (good_served o) R) as G.
+  destruct (served_inv _ _ _ R) as [Hm _].
+  assert (Hs : sock s = true).
+  { destruct (own s) eqn:E; [apply G; auto | auto]. }
+  destruct (monitor_finishes cap s G Hs Hm) as [t [St [Ht [Hst [_ Hcl]]]]].
+  specialize (Hcl Hc Hh).
+  assert (St' : star cap is_lib s t).
+  { eapply star_weaken; [| exact St]. intros l; destruct l; simpl; auto; discriminate. }
+  pose proof (reach_star _ _ _ _ _ R St) as Rt.
+  pose proof (good_reach _ _ _ (good_served o) Rt) as Gt.
+  destruct (pp t) eqn:Ep.
+  - exists t. destruct Gt as [_ [_ [_ [G4 _]]]]. destruct (G4 Ep) as [A B].
+    split; [exact St' | repeat split; auto].
+  - destruct Hcl as [Hx | Hd]; [congruence|].
+    destruct (finish_session cap t Gt Hd) as [u [Su [A [B [C [D _]]]]]]; [congruence|].
+    exists u. split; [eapply star_trans; eauto | repeat split; auto; congruence].
+  - destruct Hcl as [Hx | Hd]; [congruence|].
+    destruct (finish_session cap t Gt Hd) as [u [Su [A [B [C [D _]]]]]]; [congruence|].
+    exists u. split; [eapply star_trans; eauto | repeat split; auto; congruence].
+  - destruct Hcl as [Hx | Hd]; [congruence|].
+    destruct (finish_session cap t Gt Hd) as [u [Su [A [B [C [D _]]]]]]; [congruence|].
+    exists u. split; [eapply star_trans; eauto | repeat split; auto; congruence].
 Qed.
 
+(* the same for a dialled session *)
+Lemma thm_client_all_exit :
+  forall cap o s, reach cap (init_client o) s ->
+    die s = true -> (own s = false -> sock s = true) ->
+    exists t, star cap is_lib s t /\ pp t = PPDone /\ pend t = 0 /\ run t = false /\ rl t = RLDone.
+Proof.
+  intros cap o s R Hd Hso.
+  pose proof (good_reach _ _ _ (good_client o) R) as G.
+  destruct (client_inv _ _ _ R) as [_ [Ho [Hrl Hpp]]].
+  assert (Hs : sock s = true).
+  { destruct o; [eapply client_close_inv; eauto | apply Hso; auto]. }
+  destruct (finish_session cap s G Hd Hpp) as [u [Su [A [B [C [_ [E [F K]]]]]]]].
+  destruct (rl u) eqn:Er.
+  - congruence.
+  - destruct (readloop_exits cap u F (eq_trans K Hs) (or_introl Er)) as [v [Sv Hv]].
+    assert (Sv' : star cap is_lib u v).
+    { eapply star_weaken; [| exact Sv]. intros l; destruct l; simpl; auto; discriminate. }
+    exists v. split; [eapply star_trans; eauto|].
+    clear - Sv A B C Hv. induction Sv as [|x l y z Hxy Hl _ IH]; [auto|].
+    apply IH; auto; inv_step Hxy; auto; discriminate.
+  - destruct (readloop_exits cap u F (eq_trans K Hs) (or_intror (or_introl Er))) as [v [Sv Hv]].
+    assert (Sv' : star cap is_lib u v).
+    { eapply star_weaken; [| exact Sv]. intros l; destruct l; simpl; auto; discriminate. }
+    exists v. split; [eapply star_trans; eauto|].
+    clear - Sv A B C Hv. induction Sv as [|x l y z Hxy Hl _ IH]; [auto|].
+    apply IH; auto; inv_step Hxy; auto; discriminate.
+  - destruct (readloop_exits cap u F (eq_trans K Hs) (or_intror (or_intror Er))) as [v [Sv Hv]].
+    assert (Sv' : star cap is_lib u v).
+    { eapply star_weaken; [| exact Sv]. intros l; destruct l; simpl; auto; discriminate. }
+    exists v. split; [eapply star_trans; eauto|].
+    clear - Sv A B C Hv. induction Sv as [|x l y z Hxy Hl _ IH]; [auto|].
+    apply IH; auto; inv_step Hxy; auto; discriminate.
+  - exists u. split; [exact Su | repeat split; auto].
+Qed.
+
+(* Examples.  (1) A dialled client with traffic queued is closed; postProcess drains and returns,
+   the pending update fires as a no-op, readLoop returns on the read error. *)
 Lemma ex_exit :
-  let s := mkS true true false 2 PPSel 1 false RLRead MNone WHeld true in
+  let s := mkS true true false 2 PPSel 1 false RLRead MNone WHeld true LCNone in
   reach 8 (init_client true) s /\
-  star 8 (fun l => negb (is_env l)) s (mkS true true false 0 PPDone 0 false RLDone MNone WHeld true).
+  star 8 is_lib s (mkS true true false 0 PPDone 0 false RLDone MNone WHeld true LCNone).
 Proof.
   split.
   - eapply reach_step; [eapply reach_step; [eapply reach_step; [apply reach_init|] |] |].
     + apply s_enqueue_ok; [discriminate | repeat constructor].
     + apply s_enqueue_ok; [discriminate | repeat constructor].
-    + apply (s_close_sess 8 false false false 2 PPSel 1 false RLRead MNone true).
+    + apply (s_close_sess 8 false false false 2 PPSel 1 false RLRead MNone true LCNone).
   - eapply star_step; [apply s_pp_die_more | reflexivity |].
     eapply star_step; [apply s_pp_consume_blk | reflexivity |].
     eapply star_step; [apply s_pp_consume | reflexivity |].
@@ -316,4 +429,49 @@ Proof.
     eapply star_step; [apply s_u_fire_dead | reflexivity |].
     eapply star_step; [apply s_rl_err | reflexivity |].
     apply star_refl.
+Qed.
+
+(* (2) The history that used to leak (DESIGN F14): a peer connects, nobody accepts, the listener -
+   which owns the socket - is closed.  closeBacklog closes the session; library steps end all. *)
+Lemma ex_backlog_closed :
+  let s := mkS true true true 0 PPSel 1 false RLNone MRead WDropped true LCDone in
+  reach 8 (init_served true) s /\
+  star 8 is_lib s (mkS true true true 0 PPDone 0 false RLNone MDone WDropped true LCDone).
+Proof.
+  split.
+  - eapply reach_step; [eapply reach_step; [eapply reach_step; [eapply reach_step; [eapply reach_step;
+      [eapply reach_step; [eapply reach_step; [apply reach_init|] |] |] |] |] |] |].
+    + apply s_packet_mon.
+    + apply s_m_check_alive.
+    + apply s_m_create.
+    + apply s_m_post_alive.
+    + apply s_close_listener. discriminate.
+    + apply s_lc_drain.
+    + simpl. apply s_lc_sock.
+  - eapply star_step; [apply s_m_err | reflexivity |].
+    eapply star_step; [apply s_pp_die_exit | reflexivity |].
+    eapply star_step; [apply s_u_fire_dead | reflexivity |].
+    apply star_refl.
+Qed.
+
+(* (3) The race the second die test is there for: the monitor has passed the first test, Close
+   runs to completion (nothing to drain yet), then the session is created and queued; the
+   monitor's own closeBacklog closes it. *)
+Lemma ex_race_closed :
+  let s := mkS false false true 0 PPNone 0 false RLNone MChecked WNone false LCDone in
+  reach 8 (init_served false) s /\
+  exists t, star 8 is_mon s t /\ wh t = WDropped /\ die t = true /\ mon t = MRead.
+Proof.
+  split.
+  - eapply reach_step; [eapply reach_step; [eapply reach_step; [eapply reach_step; [eapply reach_step;
+      [apply reach_init|] |] |] |] |].
+    + apply s_packet_mon.
+    + apply s_m_check_alive.
+    + apply s_close_listener. discriminate.
+    + apply s_lc_drain.
+    + simpl. apply s_lc_sock.
+  - eexists. split.
+    { eapply star_step; [apply s_m_create | reflexivity |].
+      eapply star_step; [apply s_m_post_dead | reflexivity | apply star_refl]. }
+    simpl. repeat split.
 Qed.
